@@ -32,7 +32,22 @@ inductive Ent where
   | cls (c : Nat)
   deriving DecidableEq, Repr
 
-def classOf (k : Nat) : Nat := k % 3
+/-- the pool of the harness: objects 0-5 are instances of the three ordinary pool classes 0-2; objects 6-7 are
+    instances of class 3, which has `__slots__` without room for `_pyroId`/`_pyroDaemon`; objects 8.. are instances
+    of classes 4.. that derive from `set`, `uuid.UUID`, `decimal.Decimal`, `datetime.datetime`, `array.array`
+    (one class each).  Only classes 0-2 are ever registered as classes. -/
+def classOf (k : Nat) : Nat := if k < 6 then k % 3 else if k < 8 then 3 else k - 4
+
+/-- `e._pyroId = …` / `e._pyroDaemon = …` (669-670) work: not for instances of a class whose `__slots__` lack
+    these names (AttributeError) -/
+def canSet : Ent → Bool
+  | .obj k => !(decide (6 ≤ k) && decide (k < 8))
+  | .cls _ => true
+
+/-- sent by value, json and msgpack hand the object to `SerializerBase.class_to_dict`; instances of subclasses of
+    set / UUID / Decimal / datetime / array are converted by `default()` before that (serializers.py 397-409, 449-470),
+    and slotted instances never have a `_pyroDaemon` to clear -/
+def viaClassToDict (k : Nat) : Bool := decide (k < 6)
 
 /-- what an entry of `objectsById` refers to: the daemon's own `DaemonObject` or a pool entity -/
 inductive Ref where
@@ -156,6 +171,7 @@ inductive Target where
   | byId (i : Id)
   | noneArg             -- None
   | plain               -- an object without any pyro attribute, e.g. `[1,2,3]`
+  | daemonObj           -- the daemon's own DaemonObject instance (its `_pyroId` is `core.DAEMON_NAME`, set in `__init__`)
   deriving DecidableEq, Repr
 
 inductive Ser where
@@ -220,6 +236,8 @@ def regCheck (cfg : Cfg) (s : State) (e : Ent) (ia : IdArg) (force weak : Bool) 
   -- 661-667
   if !force && alreadyHasId cfg s e then some (.err .daemonError) else
   if !force && (lookup (resolveId s ia) s.objs).isSome then some (.err .daemonError) else
+  -- 669: the first attribute assignment raises before anything has been changed
+  if !canSet e then some (.err .attributeError) else
   none
 
 /-- `Daemon.register` (669-680): set the attributes, store the entry, arm the finalizer -/
@@ -250,6 +268,7 @@ def delAttrs (s : State) (e : Ent) : State × Res :=
 
 /-- `Daemon.unregister` (683-705) -/
 def unregister (cfg : Cfg) (s : State) : Target → State × Res
+  | .daemonObj => (s, .ok)          -- 691-698: objectId = "Pyro.Daemon" → early return
   | .noneArg => (s, .err .valueError)
   | .plain => (s, .err .daemonError)
   | .byId i =>
@@ -300,6 +319,7 @@ def uriFor (s : State) : Target → Res
     match getId s e with
     | none => .err .daemonError
     | some i => if (lookup i s.objs).isSome then .uri i else .err .daemonError
+  | .daemonObj => if (lookup .daemon s.objs).isSome then .uri .daemon else .err .daemonError
   | _ => .err .daemonError
 
 /-- `Daemon.proxyFor` (737-752): the id the returned proxy is bound to -/
@@ -326,7 +346,7 @@ def call (s : State) (i : Id) : Res :=
 /-- by-value branch: json and msgpack go through `SerializerBase.class_to_dict`, which sets
     `obj._pyroDaemon = None` when `hasattr(obj, "_pyroDaemon")`; serpent's `ser_default_class` does not -/
 def byValue (s : State) (k : Nat) (ser : Ser) : State × Res :=
-  if ser ≠ .serpent && getDm s (.obj k) ≠ .absent then
+  if ser ≠ .serpent && viaClassToDict k && getDm s (.obj k) ≠ .absent then
     ({ s with pdm := upd s.pdm (.obj k) .none }, .byValue)
   else (s, .byValue)
 
